@@ -10,10 +10,10 @@ L = env.lib()
 
 ID = "C06"
 LEVEL = "exploration"
-RULE = ("Schedules are inputs: (a) Hypothesis-generated (2-3 concurrent operations from {shell/exec_out with 0..4 chunks, streaming_shell, stat, list, small pull}, scheduler choice tape, "
-        "device packet-order tape, eager/strict CLSE, transport flavour) under the cooperative THREAD scheduler (yield points: lock acquire/release, every transport call; thorough: also every line of "
-        "_AdbIOManager.read/send and the packet store) and the deterministic asyncio TASK scheduler; (b) complete preemption-bounded enumeration (<=1 preemption quick, <=2 thorough) over all yield points "
-        "of 8 fixed workloads (two of them with a concurrent close(), judged for deadlock/wrong data only) x 2 device tapes, threads and tasks; (c) two streaming_shell generators advanced alternately in one thread. Oracle: each operation's result equals the model's value (what it "
+RULE = ("Schedules are inputs: (a) Hypothesis-generated (2-3 concurrent operations from {shell/exec_out with 0..4 chunks, streaming_shell, stat, list, small pull, push of 0..9000 bytes}, scheduler choice tape or seeded whole-run pseudo-random schedule with switch probability 0.1-0.8, "
+        "device packet-order tape, eager/strict CLSE, transport flavour) under the cooperative THREAD scheduler (yield points: lock acquire/release, every transport call; also, in a third of the thread cases, every line of "
+        "_AdbIOManager.read/send and the packet store, or every line of the filesync helpers) and the deterministic asyncio TASK scheduler; (b) complete preemption-bounded enumeration (<=1 preemption quick, <=2 thorough) over all yield points "
+        "of 10 fixed workloads (two of them with a concurrent close(), judged for deadlock/wrong data only) x 2 device tapes, threads and tasks; (c) two streaming_shell generators advanced alternately in one thread. Oracle: each operation's result equals the model's value (what it "
         "returns alone); no deadlock (no runnable worker) and no step-budget exhaustion. A run whose only deviations are timeouts and in which the put-observer saw a live stream's CLSE discarded is counted "
         "as known finding K1. Non-trivial: >= 1 packet was read by a worker that did not own it. Distinct = case hash / (workload, plan).")
 ASSUMPTIONS = ["scheduler yield points: lock acquire/release and transport calls (plus traced lines in the thorough tier); switches inside C calls are not modelled",
@@ -28,7 +28,7 @@ def workloads(draw, api=None):
     n = draw(st.sampled_from([2, 2, 3]))
     ops, services = [], {}
     for i in range(n):
-        kind = draw(st.sampled_from(["shell", "shell", "exec_out", "streaming_shell", "stat", "list", "pull"]))
+        kind = draw(st.sampled_from(["shell", "shell", "exec_out", "streaming_shell", "stat", "list", "pull", "push"]))
         if kind in ("shell", "exec_out", "streaming_shell"):
             cmd = "cmd%d" % i
             chunks = draw(st.lists(st.binary(min_size=1, max_size=6).map(lambda b, i=i: b"<%d:" % i + b + b">"), min_size=0, max_size=4))
@@ -38,18 +38,22 @@ def workloads(draw, api=None):
             ops.append({"op": "stat", "path": draw(st.sampled_from(["/f", "/g", "/none"]))})
         elif kind == "list":
             ops.append({"op": "list", "path": "/d"})
+        elif kind == "push":
+            ops.append({"op": "push", "src": {"kind": "bytesio", "content": {"pat": b"<P%d>" % i, "n": draw(st.sampled_from([0, 10, 3000, 5000, 9000]))}}, "path": "/push%d" % i, "mtime": 7 + i,
+                        "cb": draw(st.sampled_from([None, None, "rec"]))})
         else:
             ops.append({"op": "pull", "path": draw(st.sampled_from(["/f", "/g"])), "dest": "bytesio"})
     if draw(st.sampled_from([False] * 5 + [True])):
         ops.insert(draw(st.integers(0, len(ops))), {"op": "close"})
     return {"api": api or draw(st.sampled_from(["sync", "async"])),
             "device": {"services": services, "fs": FS, "dirs": DIRS, "eager_clse": draw(st.lists(st.booleans(), max_size=3)), "recv_sizes": [100],
-                       "rids": draw(sc.rid_list(4)), "zero_clse_reply": draw(st.booleans())},
+                       "rids": draw(sc.rid_list(4)), "zero_clse_reply": draw(st.booleans()), "maxdata": draw(st.sampled_from([4096, 4096, 65536, 1048576]))},
             "dev_tape": draw(st.lists(st.integers(0, 5), max_size=40)),
             "transport": {"flavour": draw(sc.flavour()), "log_calls": False},
             "connect": {}, "ops": ops,
-            "sched": draw(st.lists(st.integers(0, 2), max_size=150)),
-            "trace": draw(st.sampled_from([None, None, "io"])) if api != "async" else None}
+            "sched": draw(st.one_of(st.lists(st.integers(0, 2), max_size=500),
+                                    st.fixed_dictionaries({"seed": st.integers(0, 2 ** 32), "p": st.sampled_from([0.1, 0.3, 0.5, 0.8])}))),
+            "trace": draw(st.sampled_from([None, None, "io", "fs"])) if api != "async" else None}
 
 
 def judge(case, r, info):
@@ -67,6 +71,17 @@ def judge(case, r, info):
         if v is not None:
             deviations.append((i, op, res, v))
     if not deviations:
+        # what the device received for every push must be that push's own bytes
+        recs = {p_["spec"]: p_ for sim in r.out.sims for p_ in sim.pushes}
+        for op, res in zip(case["ops"], r.results):
+            if op["op"] == "push" and "exc" not in res:
+                spec = ("%s,%d" % (op["path"], int(op.get("mode", 0o100770)))).encode()
+                rec = recs.get(spec)
+                if rec is None:
+                    return Violation("concurrent-push-lost", "push to %s returned normally but the device never completed a SEND for it (device saw %r)" % (op["path"], sorted(recs)))
+                v = expect.check_push_record(op, rec)
+                if v is not None:
+                    return Violation("concurrent-push-corrupt:" + v.rule, v.detail)
         return None
     only_timeouts = all(common.is_timeout(res) for _, _, res, _ in deviations)
     if only_timeouts and r.dropped_clse:
@@ -88,7 +103,7 @@ def check_random(case):
         info["classes"].append(">=3-switches")
     if any(o["op"] == "close" for o in case["ops"]):
         info["classes"].append("concurrent-close")
-    info["sample"] = {"ops": [(o["op"], o.get("cmd") or o.get("path") or "") for o in case["ops"]], "sched": (case.get("sched") or [])[:30], "dev_tape": case["dev_tape"][:12],
+    info["sample"] = {"ops": [(o["op"], o.get("cmd") or o.get("path") or "") for o in case["ops"]], "sched": case.get("sched") if isinstance(case.get("sched"), dict) else (case.get("sched") or [])[:30], "dev_tape": case["dev_tape"][:12],
                       "steps": r.steps, "switches": r.switches, "foreign_reads": r.puts, "api": case["api"]}
     return v, info
 
@@ -96,17 +111,19 @@ def check_random(case):
 # ----------------------------------------------------------------------------- systematic enumeration
 def fixed_workloads():
     sv = {b"shell:a": [b"<a1>", b"<a2>", b"<a3>"], b"shell:b": [b"<b1>"], b"shell:e": [], b"exec:x": [b"<x1>", b"<x2>"]}
-    dev = {"services": sv, "fs": FS, "dirs": DIRS, "recv_sizes": [100]}
+    dev = {"services": sv, "fs": FS, "dirs": DIRS, "recv_sizes": [100], "maxdata": 4096}
     A = {"op": "shell", "cmd": "a", "decode": False}
     B = {"op": "shell", "cmd": "b", "decode": False}
     E = {"op": "shell", "cmd": "e", "decode": False}
     X = {"op": "exec_out", "cmd": "x", "decode": False}
+    P1 = {"op": "push", "src": {"kind": "bytesio", "content": {"pat": b"<one>", "n": 6000}}, "path": "/p1", "mtime": 5}
+    P2 = {"op": "push", "src": {"kind": "bytesio", "content": {"pat": b"<two>", "n": 3000}}, "path": "/p2", "mtime": 6}
     S = {"op": "stat", "path": "/f"}
     Ls = {"op": "list", "path": "/d"}
     P = {"op": "pull", "path": "/f", "dest": "bytesio"}
     G = {"op": "streaming_shell", "cmd": "a", "decode": False}
     return {"shell+shell": [A, B], "shell+empty": [A, E], "shell+stat": [A, S], "list+pull": [Ls, P], "stream+exec": [G, X], "shell+stat+empty": [B, S, E],
-            "shell+close": [A, {"op": "close"}], "stat+close": [S, {"op": "close"}]}, dev
+            "shell+close": [A, {"op": "close"}], "stat+close": [S, {"op": "close"}], "push+push": [P1, P2], "push+list": [P2, Ls]}, dev
 
 
 DEV_TAPES = [[], [1, 0, 2, 1, 1, 0, 2, 0, 1, 1, 2, 0, 1, 0, 0, 1]]
@@ -121,9 +138,9 @@ def enum_case(name, api, dt, plan):
 def check_enum(c):
     case = enum_case(c["wl"], c["api"], c["dt"], None)
     plan = {int(k): v for k, v in c["plan"]}
-    r = conc.run_concurrent(case, (), plan=plan)
-    info = {"classes": [c["api"], c["wl"], "p=%d" % len(plan)], "nontrivial": r.puts >= 1,
-            "sample": {"workload": c["wl"], "api": c["api"], "dev_tape": c["dt"], "preemptions": c["plan"], "steps": r.steps, "foreign_reads": r.puts}}
+    r = conc.run_concurrent(case, (), plan=plan, trace=c.get("trace"))
+    info = {"classes": [c["api"], c["wl"], "p=%d" % len(plan), "trace:%s" % c.get("trace")], "nontrivial": r.puts >= 1,
+            "sample": {"workload": c["wl"], "api": c["api"], "dev_tape": c["dt"], "preemptions": c["plan"], "steps": r.steps, "foreign_reads": r.puts, "trace": c.get("trace")}}
     v = judge(case, r, info)
     info["_log"] = r.log
     return v, info
@@ -147,9 +164,13 @@ def enum_items(pmax):
         wl, _ = fixed_workloads()
         idx = 0
         for name in wl:
-            for api in ("sync", "async"):
+            for api, trace in (("sync", None), ("async", None), ("sync", "fs")):
+                if trace and "push" not in name:
+                    continue          # line-level preemption inside the filesync helpers: only for the workloads with a push
                 for dt in range(len(DEV_TAPES)):
-                    base = {"wl": name, "api": api, "dt": dt, "plan": []}
+                    if trace and dt:
+                        continue
+                    base = {"wl": name, "api": api, "dt": dt, "plan": [], "trace": trace}
                     _, info0 = check_enum(base)
                     if shard == 0:
                         yield base
@@ -157,12 +178,12 @@ def enum_items(pmax):
                         idx += 1
                         if idx % nshards != shard:
                             continue
-                        c1 = {"wl": name, "api": api, "dt": dt, "plan": [[s1, w1]]}
+                        c1 = {"wl": name, "api": api, "dt": dt, "plan": [[s1, w1]], "trace": trace}
                         yield c1
                         if pmax >= 2:
                             _, info1 = check_enum(c1)
                             for (s2, w2) in alternatives(info1["_log"], after=s1):
-                                yield {"wl": name, "api": api, "dt": dt, "plan": [[s1, w1], [s2, w2]]}
+                                yield {"wl": name, "api": api, "dt": dt, "plan": [[s1, w1], [s2, w2]], "trace": trace}
     return gen
 
 
